@@ -570,6 +570,26 @@ func genMatch(rt *rapid.T, call string) string {
 		f := common.GenFrame(rt, kind, "ldata-ind-app")
 		if kind == "descrres" {
 			f.Extra = common.GenValidDIBs(rt)
+			if rapid.IntRange(0, 3).Draw(rt, "large-blocks") == 0 {
+				// a description response whose blocks sum to 256 octets and more (manufacturer data, address lists): the
+				// structure lengths are one octet each, their sum is not
+				for i := 0; i < rapid.IntRange(1, 3).Draw(rt, "n-large"); i++ {
+					body := make([]byte, rapid.SampledFrom([]int{126, 190, 192, 200, 250, 253}).Draw(rt, "large-len"))
+					for j := range body {
+						body[j] = byte(j*11 + i)
+					}
+					f.Extra = append(f.Extra, common.RDIB{Len: uint8(2 + len(body)), Type: rapid.SampledFrom([]uint8{0xfe, 5, 6}).Draw(rt, "large-type"), Body: body})
+				}
+				// by construction a description response: the same frame without the large blocks is one
+				f0 := *f
+				f0.Extra = nil
+				b0, _ := common.RefEncode(&f0)
+				b, _ := common.RefEncode(f)
+				if _, err := decodeWithin(b0, 3*time.Second); err == nil && len(b) <= 1024 {
+					return hex.EncodeToString(b)
+				}
+				continue
+			}
 		}
 		if kind == "searchres" && rapid.IntRange(0, 2).Draw(rt, "extended") == 0 {
 			// a search response with further well-formed description blocks behind the mandatory two. Whether it *is* a
